@@ -682,6 +682,10 @@ func init() {
 		s := fr.i.ex.strs(a)
 		return toValues(strings.Split(s[0], s[1]))
 	}
+	I["strings.Trim"] = func(fr *frame, a []value) value {
+		s := fr.i.ex.strs(a)
+		return strings.Trim(s[0], s[1])
+	}
 	I["strings.TrimPrefix"] = func(fr *frame, a []value) value {
 		s := fr.i.ex.strs(a)
 		return strings.TrimPrefix(s[0], s[1])
@@ -794,7 +798,7 @@ func init() {
 			if err != nil {
 				return re.MatchString(fr.i.ex.concStr(s))
 			}
-			return simplifyBool(symBool{term{"(str.in_re " + strTerm(s).s + " " + smt + ")", sortBool, 0}})
+			return simplifyBool(symBool{term{s: "(str.in_re " + strTerm(s).s + " " + smt + ")", sort: sortBool}})
 		}
 		return re.MatchString(a[1].(string))
 	}
